@@ -260,6 +260,11 @@ class Ctx:
 
     def fail(self, what, case, key=None):
         self.fails.append((what, case, key or what))
+        if len(self.fails) == 1:
+            # keep the first failure where the supervisor finds it: if the implementation (whose state may already be
+            # corrupt) kills the interpreter later in the run, this case is the replay
+            self.inflight({"first_failure": what, "key": key or what, "case": case})
+            self._inflight_frozen = True
 
     def disagree(self, op, case, impl, model):
         self.disagreements.append((op, case, impl, model))
@@ -273,6 +278,8 @@ class Ctx:
     def inflight(self, case):
         """record the case about to be handed to in-process implementation code that may abort the interpreter
         (C++ assert / segfault); the supervisor turns such a death into a VIOLATION with this case as replay"""
+        if getattr(self, "_inflight_frozen", False):
+            return
         self.last_inflight = case
         path = os.environ.get("WHVERIF_INFLIGHT")
         if path:
@@ -452,9 +459,13 @@ def supervise(prop, tier, seed, level, t0):
             except Exception:
                 case = None
         replay_path = os.path.join(OUTROOT, "replays", f"{prop}-{tier}-{seed}.json")
+        what = "the implementation aborted / crashed the Python interpreter on this input"
+        if isinstance(case, dict) and "first_failure" in case:
+            what = ("the implementation crashed the Python interpreter later in the run; first property failure before that: "
+                    + str(case["first_failure"]))
+            case = case.get("case")
         json.dump({"property": prop, "kind": "implementation-crashed-the-interpreter", "returncode": rc,
-                   "what": "the implementation aborted / crashed the Python interpreter on this input", "key": "crash",
-                   "case": case}, open(replay_path, "w"), indent=1, default=str)
+                   "what": what, "key": "crash", "case": case}, open(replay_path, "w"), indent=1, default=str)
         known = load_known(prop)
         ev = {"property_id": prop, "tier": tier, "seed": seed, "level": level,
               "coverage": {"evaluations": 1, "distinct_nontrivial": 0, "samples": [case], "rule": "run aborted by a crash of the implementation",
